@@ -34,6 +34,7 @@ pub assume_specification<T: ?Sized, A: Allocator>[ <Arc<T, A> as AsRef<T>>::as_r
 pub assume_specification<T: ?Sized, A: Allocator>[ <Box<T, A> as AsRef<T>>::as_ref ](a: &Box<T, A>) -> (r: &T)
     ensures r == &**a;
 
+#[verifier::allow(undeclared_external_trait)]
 pub assume_specification<T, E>[ Result::<T, E>::unwrap_or ](r: Result<T, E>, d: T) -> (v: T)
     where E: core::marker::Destruct, T: core::marker::Destruct
     ensures v == (match r { Ok(x) => x, Err(_) => d });
@@ -45,8 +46,10 @@ pub broadcast axiom fn axiom_cmp_max_u64(a: u64, b: u64)
     ensures #[trigger] spec_cmp_max::<u64>(a, b) == (if b >= a { b } else { a });
 pub broadcast axiom fn axiom_cmp_min_u64(a: u64, b: u64)
     ensures #[trigger] spec_cmp_min::<u64>(a, b) == (if b < a { b } else { a });
+#[verifier::allow(undeclared_external_trait)]
 pub assume_specification<T: Ord + core::marker::Destruct>[ core::cmp::max::<T> ](a: T, b: T) -> (r: T)
     ensures r == spec_cmp_max::<T>(a, b);
+#[verifier::allow(undeclared_external_trait)]
 pub assume_specification<T: Ord + core::marker::Destruct>[ core::cmp::min::<T> ](a: T, b: T) -> (r: T)
     ensures r == spec_cmp_min::<T>(a, b);
 
